@@ -434,8 +434,8 @@ QUAL_OTHER = 'namespace qo\n\nstruct T\n    x Int32\n\nstruct qn\n    "a type na
 QUAL_NAMESAKES = [('%s.stone' % n.lower(), 'namespace %s\n\nstruct Lt\n    x Int32\n' % n) for n in ('Loc', 'LocAl', 'An', 'rloc', 'Int32')]
 QUAL_THIRD = 'namespace qt\n\nstruct T\n    x Int32\n\nannotation_type At\n    p Int32\n'
 QUALIFIERS = ['', 'qn', 'qo', 'qt', 'zz', 'Loc', 'LocAl', 'stone_cfg', 'An', 'rloc', 'Int32']
-QUAL_NAMES = ['T', 'Uq', 'Al', 'At', 'An', 'rq', 'Loc', 'Noted', 'qn', 'Lt', 'Nope']
-QUAL_SITES = [('field', 'struct H\n    f %s\n'), ('field-nullable', 'struct H\n    f %s?\n'), ('list-item', 'struct H\n    f List(%s)\n'), ('parent', 'struct H extends %s\n    f Int32\n'),
+QUAL_NAMES = ['T', 'Uq', 'Al', 'At', 'An', 'rq', 'Loc', 'Noted', 'qn', 'Lt', 'Nope', 'qo', 'qt']      # incl. bare namespace names (own, imported, not imported)
+QUAL_SITES = [('field', 'struct H\n    f %s\n'), ('field-with-example', 'struct H\n    f %s\n    example default\n        f = 1\n'), ('field-nullable', 'struct H\n    f %s?\n'), ('list-item', 'struct H\n    f List(%s)\n'), ('parent', 'struct H extends %s\n    f Int32\n'),
               ('union-parent', 'union H extends %s\n    hh\n'), ('alias', 'alias H = %s\n'), ('route-arg', 'route h(%s, Void, Void)\n'), ('route-error', 'route h(Void, Void, %s)\n'),
               ('deprecated-by', 'route h(Void, Void, Void) deprecated by %s\n'), ('annotation-type', 'annotation Hh = %s(p=1)\n'), ('annotation-type-noargs', 'annotation Hh = %s()\n'),
               ('annotation-use', 'struct H\n    f Int32\n        @%s\n'), ('subtype', 'struct H\n    union\n        s %s\n    f Int32\n'), ('patch', 'patch struct %s\n    zz Int32?\n'),
